@@ -97,9 +97,17 @@ Interp(tab, v) ==
   ELSE LET k == CHOOSE j \in 1..(Len(tab.x) - 1) : tab.x[j] <= v /\ v <= tab.x[j + 1]
        IN  tab.y[k] + MulDiv(tab.y[k + 1] - tab.y[k], v - tab.x[k], tab.x[k + 1] - tab.x[k])
 
+\* The projected impairment v is the observed one rounded to the table unit, so the observed penalty must lie between
+\* the interpolations at v - 1, v, v + 1 (widened by tol): sound whatever the steepness of the table.
+Min3(a, b, c) == MinI(a, MinI(b, c))
+Max3(a, b, c) == MaxI(a, MaxI(b, c))
 PenaltyOK(tab, v, obs, tol) ==
   \/ NearEdge(tab, v)
-  \/ LET p == Interp(tab, v) IN IF p >= Inf THEN obs >= Inf ELSE obs < Inf /\ Within(obs, p, tol)
+  \/ LET p == Interp(tab, v)
+     IN IF p >= Inf THEN obs >= Inf
+        ELSE LET a == Interp(tab, v - 1)
+                 b == Interp(tab, v + 1)
+             IN obs < Inf /\ Min3(p, a, b) - tol <= obs /\ obs <= Max3(p, a, b) + tol
 
 \* total penalty: the sum, infinite as soon as one of them is
 TotalOK(pens, obs, tol) ==
